@@ -4,6 +4,7 @@ import (
 	"bytes"
 	"errors"
 	"fmt"
+	"math/rand"
 	"sort"
 	"strings"
 	"sync"
@@ -200,6 +201,7 @@ type c17Runner struct {
 	transcript []string
 	prevDL     int64
 	fail       string
+	probeSeed  int64 // seed of the random-argument block of the scenario (the same for the runs that are compared)
 }
 
 func (r *c17Runner) table() *pt.Table { return r.eng.GetTable() }
@@ -331,6 +333,40 @@ func c17Scenario(r *c17Runner, variant int) {
 	time.Sleep(400 * time.Microsecond)
 	do("UpdateTablePlayers", margs{ids: []string{"p4"}}, "leave p4")
 	do("UpdateTablePlayers", margs{joins: []pt.JoinPlayer{{PlayerID: "p5", RedeemChips: 70, Seat: 0}}}, "join on taken seat")
+	// random-argument block (table not started yet, so every effect is synchronous): all-distinct amounts, empty and
+	// nil lists, zero values. A forwarding slip that transposes, drops or short-cuts an argument shows as a different
+	// result, projection or notification count.
+	if r.probeSeed != 0 {
+		pr := rand.New(rand.NewSource(r.probeSeed))
+		for i := 0; i < 24; i++ {
+			switch pr.Intn(8) {
+			case 0, 1:
+				v := pr.Perm(40)
+				do("UpdateBlind", margs{level: 1 + pr.Intn(6), ante: int64(1 + v[0]), dealer: int64(1 + v[1]), sb: int64(1 + v[2]), bb: int64(1 + v[3])}, "all-distinct amounts")
+			case 2:
+				do("PlayersLeave", margs{ids: [][]string{nil, {}, {"ghost"}, {"ghost", "p0"}}[pr.Intn(4)]}, "nobody / unknown")
+			case 3:
+				do("UpdateTablePlayers", margs{joins: [][]pt.JoinPlayer{nil, {}}[pr.Intn(2)], ids: [][]string{nil, {}}[pr.Intn(2)]}, "empty batch")
+			case 4:
+				chips := int64(1 + pr.Intn(500))
+				for _, id := range []string{"p0", "p1", "p2"} {
+					do("PlayerRedeemChips", margs{id: id, chips: chips}, "seated")
+				}
+			case 5:
+				seat := 3 + pr.Intn(6)
+				do("PlayerReserve", margs{id: "tmp", chips: int64(1 + pr.Intn(900)), seat: seat}, "temporary player")
+				time.Sleep(300 * time.Microsecond)
+				do("PlayersLeave", margs{ids: []string{"tmp"}}, "temporary player")
+			case 6:
+				seat := 3 + pr.Intn(6)
+				do("UpdateTablePlayers", margs{joins: []pt.JoinPlayer{{PlayerID: "tmp", RedeemChips: int64(1 + pr.Intn(900)), Seat: seat}}}, "temporary player")
+				time.Sleep(300 * time.Microsecond)
+				do("UpdateTablePlayers", margs{ids: []string{"tmp"}}, "temporary player")
+			case 7:
+				do("PlayerExtendActionDeadline", margs{id: []string{"p0", "ghost", ""}[pr.Intn(3)], dur: pr.Intn(30)}, "no hand")
+			}
+		}
+	}
 	do("UpdateBlind", margs{level: 2, ante: 0, dealer: 0, sb: 10, bb: 20}, "level 2")
 	do("PlayerExtendActionDeadline", margs{id: "p0", dur: 3}, "no hand")
 	do("PlayerFold", margs{id: "p0"}, "no hand")
@@ -441,7 +477,9 @@ func c17Scenario(r *c17Runner, variant int) {
 		}
 		do("PlayerFold", margs{id: cur}, "current")
 	}
-	if !r.waitFor("standby after the hand", func(t *pt.Table) bool { return t.State.Status == pt.TableStateStatus_TableGameStandby && t.State.GameCount == 1 }) {
+	if !r.waitFor("standby after the hand", func(t *pt.Table) bool {
+		return t.State.Status == pt.TableStateStatus_TableGameStandby && t.State.GameCount == 1
+	}) {
 		return
 	}
 	time.Sleep(time.Millisecond)
@@ -493,6 +531,7 @@ func c17Forwarding(c *h.Ctx) {
 	opts := pt.NewTableEngineOptions()
 	opts.GameContinueInterval = 0
 	var mgrCounts, bareCounts c17Counts
+	probeSeed := 1 + c.R.Int63n(1<<40)
 	run := func(throughManager bool) (*c17Runner, error) {
 		m := pt.NewManager()
 		var cb *pt.TableEngineCallbacks
@@ -506,7 +545,7 @@ func c17Forwarding(c *h.Ctx) {
 		if err != nil {
 			return nil, err
 		}
-		r := &c17Runner{eng: eng}
+		r := &c17Runner{eng: eng, probeSeed: probeSeed}
 		if throughManager {
 			r.a = viaManager{m, "T"}
 		} else {
@@ -564,7 +603,7 @@ func c17Forwarding(c *h.Ctx) {
 			c.Inconclusive(err.Error())
 			return
 		}
-		r3 := &c17Runner{eng: eng, a: viaEngine{eng}}
+		r3 := &c17Runner{eng: eng, a: viaEngine{eng}, probeSeed: probeSeed}
 		c17Scenario(r3, variant)
 		time.Sleep(2 * time.Millisecond)
 		if r3.fail == "" && mgrCounts.String() != bareCounts.String() {
@@ -797,6 +836,9 @@ func c17NotFound(c *h.Ctx) {
 		}
 		for _, name := range c17Methods {
 			_, err := viaManager{m, id}.call(name, a)
+			if err0 := func() error { _, e := viaManager{m, id}.call(name, margs{}); return e }(); errors.Is(err, pt.ErrManagerTableNotFound) && !errors.Is(err0, pt.ErrManagerTableNotFound) {
+				err = err0 // zero-value arguments (empty id, nil lists, nil map): the lookup must still come first
+			}
 			if !errors.Is(err, pt.ErrManagerTableNotFound) {
 				c.Violate("C17/table-not-found-expected/"+name, fmt.Sprintf("%s on table id %q (%s) returned %v instead of the table-not-found error", name, id, map[string]string{"never": "never created", "closed": "closed", "released": "released", "failed": "creation failed", "": "empty id"}[id], err), nil)
 				return
